@@ -76,6 +76,37 @@ def comp_repeated(n, c, **_):
     return [xp.subtract(a, a)], ["x"], [(n,)]
 
 
+def comp_repeated_sum(n, c, s, **_):
+    """a REDUCTION result used for two arguments of one consumer: the fused consumer asks the same streaming predecessor twice"""
+    x = G.stub_array("x", (n,), (c,))
+    xp = _xp()
+    t = xp.sum(x, split_every=sx.conc(s))
+    return [xp.multiply(t, t)], ["x"], [()]
+
+
+def comp_repeated_fused_sum(n, c, s, **_):
+    x = G.stub_array("x", (n,), (c,))
+    xp = _xp()
+    t = xp.sum(xp.negative(x), split_every=sx.conc(s))
+    return [xp.add(t, t)], ["x"], [()]
+
+
+def comp_repeated_concat(n, c, **_):
+    x = G.stub_array("x", (n,), (c,))
+    y = G.stub_array("y", (n,), (c,))
+    xp = _xp()
+    k = xp.concat([xp.negative(x), y])
+    return [xp.subtract(k, xp.abs(k)), ], ["x", "y"], [(2 * n,)]
+
+
+def comp_repeated_concat_same(n, c, **_):
+    x = G.stub_array("x", (n,), (c,))
+    y = G.stub_array("y", (n,), (c,))
+    xp = _xp()
+    k = xp.concat([x, y])
+    return [xp.add(k, k)], ["x", "y"], [(2 * n,)]
+
+
 def comp_sum_of_elemwise(n, c, s, **_):
     x = G.stub_array("x", (n,), (c,))
     xp = _xp()
@@ -158,6 +189,10 @@ COMPOSITIONS = {
     "two-inputs": (comp_two_inputs, ["n", "c"]),
     "diamond": (comp_diamond, ["n", "c"]),
     "repeated-arg": (comp_repeated, ["n", "c"]),
+    "repeated-arg(sum)": (comp_repeated_sum, ["n", "c", "s"]),
+    "repeated-arg(sum(elemwise))": (comp_repeated_fused_sum, ["n", "c", "s"]),
+    "diamond(concat)": (comp_repeated_concat, ["n", "c"]),
+    "repeated-arg(concat)": (comp_repeated_concat_same, ["n", "c"]),
     "sum(elemwise)": (comp_sum_of_elemwise, ["n", "c", "s"]),
     "elemwise(sum)": (comp_elemwise_of_sum, ["n", "c", "s"]),
     "mean(elemwise)": (comp_mean, ["n", "c", "s"]),
@@ -230,7 +265,10 @@ def make(comp, optimizer, twin=False):
                 sx.assume(e[d] < ext) if d == 0 else sx.assume(e[d] < ext)
                 idx.append(e[d])
             t0 = ev0.elem_of(o.name, tuple(idx))
-            t1 = ev1.elem_of(o.name, tuple(idx))
+            try:
+                t1 = ev1.elem_of(o.name, tuple(idx))
+            except Exception as ex:  # noqa: BLE001 - the unoptimized plan just produced this element: the optimized plan must, too
+                raise sx.Violated("optimized-plan-fails-where-the-unoptimized-plan-succeeds", f"{o.name}{tuple(idx)}: {type(ex).__name__}: {str(ex)[:200]}") from ex
             sx.require(not anp.has_uninit(t0), "element-never-written-unoptimized")
             sx.require(not anp.has_uninit(t1), "element-never-written-after-optimization")
             sx.require(same_value(t0, t1, leaves, j, leafshapes), "optimization-changed-a-value", f"{o.name}{tuple(idx)}: {t0} vs {t1}")
